@@ -168,6 +168,10 @@ func genC10stack(g *G) {
 		for k := -1; k <= n+1; k++ {
 			ops = append(ops, fmt.Sprintf("peek %d", k))
 		}
+		// the ends of the int range (index arithmetic that negates or subtracts must not wrap into range)
+		for _, k := range []int{math.MaxInt64, math.MinInt64, math.MinInt64 + n, math.MaxInt64 - n, 1 << 32, -(1 << 32)} {
+			ops = append(ops, fmt.Sprintf("peek %d", k))
+		}
 		g.Case(ops)
 	}
 }
@@ -488,6 +492,13 @@ func genC10mlink(g *G) {
 				ops = append(ops, g.Pick("len", "isempty"))
 			}
 		}
+		if c%8 == 0 {
+			// the ends of the int range for At/Peek (negative: documented panic; huge: the end cursor)
+			for _, k := range []int{math.MaxInt64, math.MinInt64, 1 << 32, -(1 << 32)} {
+				ops = append(ops, fmt.Sprintf("peek %d", k), fmt.Sprintf("at %s %d", reg(), k))
+			}
+			ops = append(ops, "len")
+		}
 		g.Case(ops)
 	}
 }
@@ -591,6 +602,12 @@ func genC10mlinkq(g *G) {
 			default:
 				ops = append(ops, fmt.Sprintf("each %d", g.Intn(n+2)))
 			}
+		}
+		if c%8 == 0 {
+			for _, k := range []int{math.MaxInt64, math.MinInt64, 1 << 32, -(1 << 32)} {
+				ops = append(ops, fmt.Sprintf("peek %d", k))
+			}
+			ops = append(ops, "front")
 		}
 		g.Case(ops)
 	}
